@@ -19,6 +19,9 @@ struct ByteSink {
 	void append(const char *p, size_t n) { s.append(p, n); }
 };
 
+// caller-supplied locale_options for the grouping cases (nullptr: do_printf_ints' default argument)
+frg::locale_options *g_locale = nullptr;
+
 struct Agent {
 	ByteSink *sink;
 	frg::va_struct *vsp;
@@ -30,7 +33,8 @@ struct Agent {
 			frg::do_printf_chars(*sink, t, opts, szmod, vsp);
 			break;
 		default:   // integer conversions; anything else ends in do_printf_ints' default case
-			frg::do_printf_ints(*sink, t, opts, szmod, vsp);
+			if(g_locale) frg::do_printf_ints(*sink, t, opts, szmod, vsp, *g_locale);
+			else frg::do_printf_ints(*sink, t, opts, szmod, vsp);
 		}
 		return frg::success;
 	}
@@ -196,6 +200,41 @@ void run_group(const vh::Lines &ls) {
 		else if(t[0] == "spec" && t.size() == 11) {
 			iso_items = true;
 			specs.push_back({t[1], t[2], t[3], t[4], t[5], t[6], atoll(t[7].c_str()), atoll(t[8].c_str()), t[9]});
+		}
+		else if(t[0] == "grp" && t.size() == 8) {
+			// grp <value> <width> <precision> <left_justify> <zero_fill> <grouping hex> <separator hex>:
+			// print_int with group_thousands and a caller-supplied locale whose strings live in exact-size heap
+			// blocks (an index -1 or past the NUL is a heap-buffer-overflow), directly and through "%'...ld"
+			long val = (long)vh::i64(t[1]); int width = atoi(t[2].c_str()), prec = atoi(t[3].c_str());
+			bool lj = t[4] == "1", zero = t[5] == "1";
+			std::string g = unhex(t[6]), sp = unhex(t[7]);
+			char *gb = (char *)malloc(g.size() + 1); memcpy(gb, g.data(), g.size()); gb[g.size()] = 0;
+			char *sb = (char *)malloc(sp.size() + 1); memcpy(sb, sp.data(), sp.size()); sb[sp.size()] = 0;
+			frg::locale_options loc(".", sb, gb);
+			ByteSink direct;
+			frg::_fmt_basics::print_int(direct, val, 10, width, prec, zero ? '0' : ' ', lj, true, false, false, false, loc);
+			printf("out %s\n", hex(direct.s).c_str());
+			// the same conversion through printf_format / do_printf_ints with the locale passed by the agent
+			// (the 0 flag is ignored when a precision is given: with zero fill only the default precision is run this way)
+			std::string f = "%'";
+			if(lj) f += "-";
+			if(zero) f += "0";
+			if(width > 0) f += std::to_string(width);
+			if(prec != 1) f += "." + std::to_string(prec);
+			f += "ld";
+			if(!(zero && prec != 1)) {
+				Ctx ctx; char *fb = (char *)malloc(f.size() + 1); memcpy(fb, f.c_str(), f.size() + 1);
+				ctx.fmt = fb; ctx.cache = (frg::arg *)malloc(9 * sizeof(frg::arg)); memset((void *)ctx.cache, 0xA5, 9 * sizeof(frg::arg));
+				g_locale = &loc;
+				tramp(&ctx, val, CANARY, CANARY);
+				g_locale = nullptr;
+				if(ctx.asserted || ctx.out != direct.s || ctx.pops != 1)
+					vh::oracle("grouping-path", "fmt=\"%s\" value %ld with grouping %s sep \"%s\": directive prints \"%s\" (%ld fetches%s), print_int \"%s\"",
+					           f.c_str(), val, t[6].c_str(), esc(sp).c_str(), esc(ctx.out).c_str(), ctx.pops, ctx.asserted ? ", assertion" : "", esc(direct.s).c_str());
+				free(fb); free((void *)ctx.cache);
+			}
+			free(gb); free(sb);
+			return;
 		}
 		else if(t[0] == "digits" && t.size() == 4) {
 			uint64_t v = vh::u64(t[1]); int radix = atoi(t[2].c_str()); bool caps = t[3] == "1";
